@@ -1,8 +1,406 @@
-//! C03 — generator and driver of the real API.
+//! C03 — suffix array, LCP, shortest unique substrings, sampled suffix array.
+//!
+//! `sa <text>`                          => `<sa>`                       suffix_array (any sentinel byte, several occurrences)
+//! `lcp <text>`                         => `<sa>;<lcp>;<sus>`           single-sentinel text, n >= 2 (sus: `n` = None)
+//! `int <v0,v1,…>`                      => `<sa>`                       suffix_array_int (dense, unique 0 at the end)
+//! `samp <text> <f|n> <s1,s2,…> <k1,…>` => `<sa>;<gets s1 k1>/<gets s1 k2>/…`   SampledSuffixArray::get(i) for all i
+//!        f = alphabet with the sentinel, n = alphabet without it
 use crate::util::*;
+use bio::alphabets::Alphabet;
+use bio::data_structures::bwt::{bwt, less, Occ};
+use bio::data_structures::suffix_array::{lcp, shortest_unique_substrings, suffix_array, suffix_array_int, SuffixArray};
 
-pub fn gen(_tier: &str, _rng: &mut Rng, _out: &mut Vec<String>) {}
+pub fn fib_word(a: u8, b: u8, len: usize) -> Vec<u8> {
+    let mut x = vec![a];
+    let mut y = vec![a, b];
+    while y.len() < len {
+        let mut z = y.clone();
+        z.extend_from_slice(&x);
+        x = y;
+        y = z;
+    }
+    y.truncate(len);
+    y
+}
 
-pub fn exec(_toks: &[&str]) -> Result<String, String> {
-    Err("unimplemented".into())
+pub fn thue_morse(a: u8, b: u8, len: usize) -> Vec<u8> {
+    (0..len).map(|i| if (i as u64).count_ones() % 2 == 0 { a } else { b }).collect()
+}
+
+/// letters strictly above `sent`
+pub fn letters(rng: &mut Rng, sent: u8, k: usize) -> Vec<u8> {
+    let pools: [&[u8]; 4] = [b"ACGT", b"abcde", b"ACGTN", &[37, 38, 200, 254, 255]];
+    let mut v: Vec<u8> = match rng.below(5) {
+        0 | 1 => pools[0].to_vec(),
+        2 => pools[1].to_vec(),
+        3 => pools[2].to_vec(),
+        _ => pools[3].to_vec(),
+    };
+    v.retain(|&c| c > sent);
+    if v.is_empty() {
+        v = vec![sent.saturating_add(1).max(1)];
+    }
+    // random subset of size k (keep order irrelevant)
+    while v.len() > k {
+        let i = rng.below(v.len());
+        v.remove(i);
+    }
+    v
+}
+
+/// one sequence without sentinel, max length `maxlen`
+pub fn seq(rng: &mut Rng, alpha: &[u8], maxlen: usize) -> Vec<u8> {
+    let len = rng.below(maxlen + 1);
+    let a = alpha[0];
+    let b = *alpha.last().unwrap();
+    match rng.below(10) {
+        // power of a short word
+        0 | 1 => {
+            let per = 1 + rng.below(4);
+            let w = rng.seq(alpha, per);
+            (0..len).map(|i| w[i % per]).collect()
+        }
+        // power of a short word with one symbol changed
+        2 => {
+            let per = 1 + rng.below(4);
+            let w = rng.seq(alpha, per);
+            let mut s: Vec<u8> = (0..len).map(|i| w[i % per]).collect();
+            if len > 0 {
+                let i = rng.below(len);
+                s[i] = *rng.pick(alpha);
+            }
+            s
+        }
+        3 => fib_word(a, b, len),
+        4 => fib_word(b, a, len),
+        5 => vec![*rng.pick(alpha); len],
+        6 => thue_morse(a, b, len),
+        _ => rng.seq(alpha, len),
+    }
+}
+
+/// a sentinel-terminated text: `nseq` sequences joined (and ended) by `sent`
+pub fn text(rng: &mut Rng, sent: u8, nseq: usize, maxlen: usize, nsym: usize) -> Vec<u8> {
+    let alpha = letters(rng, sent, nsym);
+    let mut t = vec![];
+    // sometimes all reads are copies / mutated copies of one read (equal LMS substrings across sentinels)
+    let copies = rng.chance(1, 4);
+    let base = seq(rng, &alpha, maxlen);
+    for _ in 0..nseq {
+        if copies {
+            if rng.chance(1, 2) {
+                t.extend_from_slice(&base);
+            } else {
+                t.extend(rng.mutate(&base, &alpha, 10));
+            }
+        } else {
+            t.extend(seq(rng, &alpha, maxlen));
+        }
+        t.push(sent);
+    }
+    t
+}
+
+/// text with `m` one/two-letter reads (>= 256 sentinels reaches the u16 rank path)
+pub fn many_sentinels(rng: &mut Rng, sent: u8, m: usize) -> Vec<u8> {
+    let na = 1 + rng.below(3);
+    let alpha = letters(rng, sent, na);
+    let mut t = vec![];
+    for _ in 0..m {
+        let l = if rng.chance(1, 5) { rng.below(3) } else { 1 };
+        t.extend(rng.seq(&alpha, l));
+        t.push(sent);
+    }
+    t
+}
+
+fn pick_sentinel(rng: &mut Rng, dollar_only: bool) -> u8 {
+    if dollar_only {
+        return b'$';
+    }
+    match rng.below(8) {
+        0 => 0,
+        1 => 1,
+        2 => b'#',
+        3 => b'@',
+        _ => b'$',
+    }
+}
+
+/// random text for the generic cases
+pub fn any_text(rng: &mut Rng, dollar_only: bool, single: bool, maxlen: usize) -> Vec<u8> {
+    let sent = pick_sentinel(rng, dollar_only);
+    let nseq = if single { 1 } else { *rng.pick(&[1usize, 1, 2, 2, 3, 4, 5, 6]) };
+    let nsym = 1 + rng.below(5);
+    let ml = match rng.below(6) {
+        0 => 3,
+        1 => 8,
+        _ => maxlen,
+    };
+    text(rng, sent, nseq, ml, nsym)
+}
+
+fn int_text(rng: &mut Rng) -> Vec<usize> {
+    // dense alphabet 0..=max, unique 0 at the end
+    let mm = if rng.chance(1, 6) { 40 } else { 5 };
+    let max = 1 + rng.below(mm);
+    let len = max + rng.below(40);
+    let mut v: Vec<usize> = match rng.below(4) {
+        0 => {
+            let per = 1 + rng.below(4);
+            let w: Vec<usize> = (0..per).map(|_| 1 + rng.below(max)).collect();
+            (0..len).map(|i| w[i % per]).collect()
+        }
+        1 if max >= 2 => fib_word(1, 2, len).into_iter().map(|c| c as usize).collect(),
+        _ => (0..len).map(|_| 1 + rng.below(max)).collect(),
+    };
+    // make it dense: overwrite random places with the missing values
+    let mut used = vec![false; max + 1];
+    for &c in &v {
+        used[c] = true;
+    }
+    let missing: Vec<usize> = (1..=max).filter(|&c| !used[c]).collect();
+    if v.len() < max {
+        v = (1..=max).collect();
+    } else {
+        let mut slots: Vec<usize> = (0..v.len()).collect();
+        for m in missing {
+            // choose a slot whose value occurs more than once
+            for _ in 0..200 {
+                let si = rng.below(slots.len());
+                let s = slots[si];
+                if v.iter().filter(|&&c| c == v[s]).count() > 1 {
+                    v[s] = m;
+                    slots.swap_remove(si);
+                    break;
+                }
+            }
+        }
+        let mut used = vec![false; max + 1];
+        for &c in &v {
+            used[c] = true;
+        }
+        if !(1..=max).all(|c| used[c]) {
+            v = (1..=max).collect();
+        }
+    }
+    v.push(0);
+    v
+}
+
+fn enum_texts(alpha: &[u8], sent: u8, maxlen: usize, out: &mut Vec<Vec<u8>>) {
+    // all texts of length 1..=maxlen over alpha ∪ {sent} ending in sent
+    let mut syms = alpha.to_vec();
+    syms.push(sent);
+    let mut cur: Vec<Vec<u8>> = vec![vec![]];
+    for _l in 0..maxlen {
+        for s in &cur {
+            let mut t = s.clone();
+            t.push(sent);
+            out.push(t);
+        }
+        let mut nxt = vec![];
+        for s in &cur {
+            for &a in &syms {
+                let mut t = s.clone();
+                t.push(a);
+                nxt.push(t);
+            }
+        }
+        cur = nxt;
+    }
+}
+
+const S_RATES: [usize; 9] = [1, 2, 3, 4, 5, 6, 7, 8, 16];
+pub const K_RATES: [usize; 13] = [1, 2, 3, 5, 8, 63, 64, 65, 66, 100, 127, 128, 129];
+
+pub fn gen(tier: &str, rng: &mut Rng, out: &mut Vec<String>) {
+    let thorough = tier == "thorough";
+    let n_sa = if thorough { 30_000 } else { 2_500 };
+    for i in 0..n_sa {
+        let t = if i % 400 == 7 {
+            let m = 256 + rng.below(60);
+            many_sentinels(rng, b'$', m)
+        } else if i % 400 == 207 {
+            // > 255 LMS substrings, all equal: u16 reduced text and recursion
+            let w: &[u8] = *rng.pick(&[b"ba".as_slice(), b"cab", b"ab", b"bba"]);
+            let reps = 260 + rng.below(40);
+            let mut t: Vec<u8> = (0..reps * w.len()).map(|j| w[j % w.len()]).collect();
+            if rng.chance(1, 2) {
+                let j = rng.below(t.len());
+                t[j] = b'c';
+            }
+            t.push(b'$');
+            t
+        } else {
+            let ml = if thorough && rng.chance(1, 10) { 120 } else { 30 };
+            any_text(rng, false, false, ml)
+        };
+        out.push(format!("sa {}", hex(&t)));
+    }
+    let n_lcp = if thorough { 8_000 } else { 600 };
+    for i in 0..n_lcp {
+        let t = if i % 50 == 3 {
+            // LCP values >= 127 (SmallInts overflow map)
+            let w: &[u8] = *rng.pick(&[b"a".as_slice(), b"ab", b"aab"]);
+            let len = 130 + rng.below(140);
+            let mut t: Vec<u8> = (0..len).map(|j| w[j % w.len()]).collect();
+            t.push(b'$');
+            t
+        } else {
+            let ml = if rng.chance(1, 8) { 120 } else { 30 };
+            let mut t = any_text(rng, false, true, ml);
+            if t.len() < 2 {
+                t.insert(0, t[0].saturating_add(1).max(1));
+            }
+            t
+        };
+        out.push(format!("lcp {}", hex(&t)));
+    }
+    let n_int = if thorough { 6_000 } else { 400 };
+    for _ in 0..n_int {
+        out.push(format!("int {}", join(&int_text(rng), ",")));
+    }
+    let n_samp = if thorough { 4_000 } else { 400 };
+    for i in 0..n_samp {
+        let t = if i % 100 == 11 {
+            {
+                let m = 256 + rng.below(20);
+                many_sentinels(rng, b'$', m)
+            }
+        } else {
+            {
+                let ml = if rng.chance(1, 6) { 100 } else { 25 };
+                any_text(rng, false, false, ml)
+            }
+        };
+        let has_other = t.iter().any(|&c| c != *t.last().unwrap());
+        let flag = if has_other && rng.chance(1, 2) { "n" } else { "f" };
+        let big = t.len() > 200;
+        let ss: Vec<usize> = if big { vec![*rng.pick(&S_RATES), 16] } else { S_RATES.to_vec() };
+        let mut ks: Vec<usize> = vec![*rng.pick(&K_RATES[..5]), *rng.pick(&K_RATES[5..])];
+        if rng.chance(1, 4) {
+            ks.push(2 * t.len());
+        }
+        out.push(format!("samp {} {} {} {}", hex(&t), flag, join(&ss, ","), join(&ks, ",")));
+    }
+    if thorough {
+        let mut ts = vec![];
+        enum_texts(b"AC", b'$', 9, &mut ts);
+        for t in ts {
+            out.push(format!("sa {}", hex(&t)));
+        }
+        let mut ts = vec![];
+        enum_texts(b"AC", b'$', 7, &mut ts);
+        for t in ts {
+            if t.len() >= 2 && t.iter().filter(|&&c| c == b'$').count() == 1 {
+                out.push(format!("lcp {}", hex(&t)));
+            }
+        }
+    }
+}
+
+/// text ends with its smallest symbol
+fn well_formed(t: &[u8]) -> Result<(), String> {
+    if t.is_empty() {
+        return Err("empty text".into());
+    }
+    let s = t[t.len() - 1];
+    if t.iter().any(|&c| c < s) {
+        return Err("sentinel not smallest".into());
+    }
+    Ok(())
+}
+
+pub fn exec(toks: &[&str]) -> Result<String, String> {
+    if toks.is_empty() {
+        return Err("arity".into());
+    }
+    match toks[0] {
+        "sa" => {
+            if toks.len() != 2 {
+                return Err("arity".into());
+            }
+            let t = unhex(toks[1])?;
+            well_formed(&t)?;
+            Ok(join(&suffix_array(&t), ","))
+        }
+        "lcp" => {
+            if toks.len() != 2 {
+                return Err("arity".into());
+            }
+            let t = unhex(toks[1])?;
+            well_formed(&t)?;
+            let s = t[t.len() - 1];
+            if t.len() < 2 || t.iter().filter(|&&c| c == s).count() != 1 {
+                return Err("lcp needs a single sentinel and length >= 2".into());
+            }
+            let sa = suffix_array(&t);
+            let l = lcp(&t, &sa);
+            let sus = shortest_unique_substrings(&sa, &l);
+            let sus_s: Vec<String> = sus.iter().map(|x| x.map_or("n".to_string(), |v| v.to_string())).collect();
+            Ok(format!("{};{};{}", join(&sa, ","), join(&l.decompress(), ","), join(&sus_s, ",")))
+        }
+        "int" => {
+            if toks.len() != 2 {
+                return Err("arity".into());
+            }
+            let v: Vec<usize> = parse_list(toks[1], ',')?;
+            if v.is_empty() || *v.last().unwrap() != 0 || v[..v.len() - 1].iter().any(|&c| c == 0) {
+                return Err("needs a unique 0 at the end".into());
+            }
+            let max = *v.iter().max().unwrap();
+            if max > 10_000 {
+                return Err("too large".into());
+            }
+            let mut used = vec![false; max + 1];
+            for &c in &v {
+                used[c] = true;
+            }
+            if used.iter().any(|u| !u) {
+                return Err("not dense".into());
+            }
+            Ok(join(&suffix_array_int(&v), ","))
+        }
+        "samp" => {
+            if toks.len() != 5 {
+                return Err("arity".into());
+            }
+            let t = unhex(toks[1])?;
+            well_formed(&t)?;
+            let sent = t[t.len() - 1];
+            let ss: Vec<usize> = parse_list(toks[3], ',')?;
+            let ks: Vec<usize> = parse_list(toks[4], ',')?;
+            if ss.is_empty() || ks.is_empty() || ss.iter().any(|&s| s == 0) || ks.iter().any(|&k| k == 0 || k > 1 << 30) {
+                return Err("rates".into());
+            }
+            let alphabet = match toks[2] {
+                "f" => Alphabet::new(&t),
+                "n" => {
+                    let a = Alphabet::new(t.iter().filter(|&&c| c != sent));
+                    if a.is_empty() {
+                        return Err("empty alphabet".into());
+                    }
+                    a
+                }
+                _ => return Err("alphabet flag".into()),
+            };
+            let sa = suffix_array(&t);
+            let b = bwt(&t, &sa);
+            let le = less(&b, &alphabet);
+            let mut outs = vec![];
+            for &s in &ss {
+                for &k in &ks {
+                    let occ = Occ::new(&b, k as u32, &alphabet);
+                    let sampled = sa.sample(&t, &b, &le, &occ, s);
+                    let gets: Vec<String> = (0..sa.len())
+                        .map(|i| sampled.get(i).map_or("n".to_string(), |v| v.to_string()))
+                        .collect();
+                    outs.push(join(&gets, ","));
+                }
+            }
+            Ok(format!("{};{}", join(&sa, ","), outs.join("/")))
+        }
+        _ => Err("op".into()),
+    }
 }
